@@ -53,6 +53,7 @@ class RunMonitor:
         self.start_faults = {}  # PY_START index -> fault
         self.loc_faults = {}  # (relfile, qualname, line) -> [occ_wanted, seen, fault]
         self.stage_faults = {}  # (qualname, when) -> [occ_wanted, fault]
+        self.foreign_fault = None  # fires at the first repo call made while the output is open
         for f in faults or []:
             self.add_fault(f)
         self._active = False
@@ -73,7 +74,9 @@ class RunMonitor:
     def add_fault(self, f):
         k = f["k"]
         if k in ("exc", "kill"):
-            if "loc" in f:
+            if f.get("event") == "FOREIGN":
+                self.foreign_fault = f
+            elif "loc" in f:
                 rel, qual, line, occ = f["loc"]
                 self.loc_faults[(rel, qual, line)] = [occ, 0, f]
             elif f.get("event") == "PY_START":
@@ -186,6 +189,10 @@ class RunMonitor:
         if s is not None and s.out_open > 0 and code is not s.out_owner:
             q = fn[len(self.pkg):] + ":" + code.co_qualname
             self.foreign_in_window[q] = self.foreign_in_window.get(q, 0) + 1
+            if self.foreign_fault is not None:
+                f = self.foreign_fault
+                self.foreign_fault = None
+                self._fire(f, code, code.co_firstlineno)
         if self.start_faults:
             f = self.start_faults.pop(self.n_start, None)
             if f is not None:
